@@ -173,12 +173,15 @@ func (w *c02) Run(t *rt.Tape, trace bool) *core.Result {
 	if small {
 		opts.MaxGates = 60
 	}
-	circ := gen.Circuit(t, opts)
-	in := gen.Inputs(t, circ)
 	kind := DrawOT(t, w.tier)
 	if small && (kind == OTRSA1024 || kind == OTRSA2048 || kind == OTCOT || kind == OTCOTMal) && t.Choose(rt.SGen, 4) != 0 {
 		kind = OTCO // byte-wise delivery of kilobyte OT messages is slow; keep some
 	}
+	if !small && kind != OTRSA1024 && kind != OTRSA2048 {
+		opts.WideLast = 1100 // evaluator inputs spanning several OT-extension chunks
+	}
+	circ := gen.Circuit(t, opts)
+	in := gen.Inputs(t, circ)
 	res.Sample = Sample{Circuit: gen.Describe(circ), X: in[0].Text(16), Y: in[1].Text(16), OT: OTNames[kind], GE: core.DescribeDir(pipe.AB), EG: core.DescribeDir(pipe.BA)}
 	res.Class = "ot=" + OTNames[kind]
 	want := gen.Eval(circ, in)
